@@ -59,6 +59,7 @@ def resolve(ref, depth, level_has_array):
 
 
 def valid_chain(chain):
+    chain = [(c[0], c[1]) for c in chain]
     for i, (kind, wrap) in enumerate(chain):
         if wrap == "GreedyRange" and kind == "LazyStruct":
             return False       # GreedyRange over a lazy construct does not terminate (known finding, C06)
@@ -93,11 +94,26 @@ def instances(tier, seed):
     d3 = []
     for _ in range(300 if tier == "quick" else 3000):
         d3.append([(rnd.choice(KINDS), rnd.choice(WRAPS)) for _ in range(3)])
-    out, seen = [], set()
+    # variants in which an intermediate level declares its child BEFORE its own field x (the child's parent scope is
+    # then still empty when the child is entered)
+    cfs = []
     for chain in chains + d3:
+        if len(chain) >= 2 and all(k in ("Struct", "Sequence") for k, w in chain[:-1]):
+            for lvl in range(len(chain) - 1):
+                c2 = [tuple(c) for c in chain]
+                c2[lvl] = (c2[lvl][0], c2[lvl][1], True)
+                cfs.append(c2)
+    rnd.shuffle(cfs)
+    out, seen = [], set()
+    for chain in chains + d3 + cfs[:120 if tier == "quick" else 1200]:
         if not valid_chain(chain):
             continue
-        if len(chain) == 1 or tier != "quick":
+        cfl = [i for i, c in enumerate(chain) if len(c) > 2 and c[2]]
+        if any(chain[i + 1][1] == "GreedyRange" for i in cfl):
+            continue            # a greedy child declared before x would swallow x
+        if cfl:
+            refs = ["_root.x", "x", "_params.k", "_index"]
+        elif len(chain) == 1 or tier != "quick":
             refs = REFS if len(chain) < 3 else [rnd.choice(REFS), rnd.choice(REFS)]
         elif len(chain) == 2:
             j = rnd.randrange(len(REFS))
@@ -105,21 +121,23 @@ def instances(tier, seed):
         else:
             refs = [rnd.choice(REFS)]
         for ref in refs:
-            has_arr = [bool(w) for k, w in chain]
+            has_arr = [bool(c[1]) for c in chain]
             # wrapper of level i repeats level i itself, so _index is visible inside level i
             den = resolve(ref, len(chain), has_arr)
             if den is None:
                 continue
+            if den[0] == "x" and den[1] in cfl:
+                continue           # that level's x is declared after the child: not yet known while the child is parsed
             # documented restriction (docs/lazy.rst): members of a LazyStruct that were skipped lazily are not in the context
             if den[0] == "x" and chain[den[1]][0] == "LazyStruct":
                 continue
             if den[0] == "n" and chain[-1][0] == "LazyStruct":
                 continue
-            if den[0] == "index" and any(k == "LazyStruct" for k, w in chain):
+            if den[0] == "index" and any(c[0] == "LazyStruct" for c in chain):
                 continue       # LazyStruct sizes its members with sizeof, where _index is None (outside: documented lazy restrictions)
             probe = PROBES[(len(out) + len(ref)) % 3] if len(chain) > 1 else None
             for pr in ([probe] if probe else PROBES):
-                nm = "%s  ref=this.%s probe=%s" % (" > ".join((w + "(" + k + ")") if w else k for k, w in chain), ref, pr)
+                nm = "%s  ref=this.%s probe=%s" % (" > ".join(((c[1] + "(" + c[0] + ")") if c[1] else c[0]) + ("^" if len(c) > 2 and c[2] else "") for c in chain), ref, pr)
                 if nm in seen:
                     continue
                 seen.add(nm)
@@ -130,6 +148,11 @@ def instances(tier, seed):
                 out.append(dict(name="union ref=this.%s nested=%s parsefrom=%r" % (ref, nested, pf), params=dict(kind="union", ref=ref, nested=nested, pf=pf)))
     for ref in ("_.m", "_root.m", "_params.k", "_._.m", "q", "_root._params.m"):
         out.append(dict(name="union build ref=this.%s" % ref, params=dict(kind="union-build", ref=ref)))
+    out.append(dict(name="flags after an unsized member of a LazyStruct", params=dict(kind="lazyflags")))
+    for inner in ("GreedyRange(Byte)", "Array(2, Byte)", "RepeatUntil(lambda o, l, c: len(l) == 2, Byte)"):
+        for outer in ("Array(2, {})", "RepeatUntil(lambda o, l, c: len(l) == 2, {})"):
+            out.append(dict(name="_index in a delimiter length around a repeater: %s" % outer.format("FixedSized(this._index + 2, %s)" % inner),
+                            params=dict(kind="indexfixed", outer=outer, inner=inner)))
     for api_ in ("parse", "build", "sizeof"):
         for k in INNER_KINDS + ["FocusedSeq"]:
             out.append(dict(name="flags %s in %s" % (api_, k), params=dict(kind="flags", api=api_, scope=k)))
@@ -137,12 +160,18 @@ def instances(tier, seed):
 
 
 # ---------------------------------------------------------------------------------------------
-def level_source(i, chain, ref, probe):
+def needs_kw(chain, ref):
+    return ref in ("_params.k", "_._params.k", "_root._params.k", "n") or any(c[0] == "FocusedSeq" for c in chain) or \
+        (resolve(ref, len(chain), [bool(c[1]) for c in chain]) or ("",))[0] == "kw"
+
+
+def level_source(i, chain, ref, probe, usekw=True):
     """construct source of level i (recursively includes deeper levels)"""
-    kind, wrap = chain[i]
+    kind, wrap = chain[i][0], chain[i][1]
+    cf = len(chain[i]) > 2 and chain[i][2]
     last = i == len(chain) - 1
     if last:
-        body = ["'x'/Byte", "'n'/Rebuild(Byte, this._params.k)", "'pc'/Computed(this.%s)" % ref]
+        body = ["'x'/Byte", "'n'/Rebuild(Byte, %s)" % ("this._params.k" if usekw else "7"), "'pc'/Computed(this.%s)" % ref]
         if probe == "bytes":
             body.append("'pb'/Bytes(this.%s & 3)" % ref)
         elif probe == "array":
@@ -152,9 +181,11 @@ def level_source(i, chain, ref, probe):
         body.append("'t'/Byte")
         inner = "%s(%s)" % (kind, ", ".join(body))
     else:
-        child = level_source(i + 1, chain, ref, probe)
+        child = level_source(i + 1, chain, ref, probe, usekw)
         if kind == "FocusedSeq":
             inner = "FocusedSeq('child', 'x'/Rebuild(Byte, this._params.fx%d), 'child'/%s)" % (i, child)
+        elif cf:
+            inner = "%s('child'/%s, 'x'/Byte)" % (kind, child)
         else:
             inner = "%s('x'/Byte, 'child'/%s)" % (kind, child)
     if wrap == "Array":
@@ -172,7 +203,7 @@ class Gen:
     def __init__(self, ctx, chain, ref, probe, kw):
         self.ctx, self.chain, self.ref, self.probe, self.kw = ctx, chain, ref, probe, kw
         self.depth = len(chain)
-        self.has_arr = [bool(w) for k, w in chain]
+        self.has_arr = [bool(c[1]) for c in chain]
         self.checks = []        # (description, function(parsed_obj) -> term)
         self.counter = 0
 
@@ -182,7 +213,8 @@ class Gen:
 
     def level(self, i, xs, idx, path):
         """returns (value, length, getter) for ONE element of level i; xs: x values of outer levels, idx: index per level"""
-        kind, wrap = self.chain[i]
+        kind, wrap = self.chain[i][0], self.chain[i][1]
+        cf = len(self.chain[i]) > 2 and self.chain[i][2]
         last = i == self.depth - 1
         if kind == "FocusedSeq" and not last:
             x = self.kw["fx%d" % i]
@@ -231,6 +263,9 @@ class Gen:
             return val, length, check
         # intermediate level: x then child (possibly repeated)
         cwrap = self.chain[i + 1][1]
+        if cf:
+            # the child is declared before x: generate x after the child so that names are assigned in stream order
+            pass
         reps = 2 if cwrap else 1
         vals, lens, chks = [], 0, []
         for j in range(reps):
@@ -245,19 +280,19 @@ class Gen:
         if kind == "FocusedSeq":
             val = childval
         elif kind == "Sequence":
-            val = [x, childval]
+            val = [childval, x] if cf else [x, childval]
         else:
             val = dict(x=x, child=childval)
         length = 1 + lens
 
-        def check(obj, kind=kind, x=x, chks=chks, cwrap=cwrap):
+        def check(obj, kind=kind, x=x, chks=chks, cwrap=cwrap, cf=cf):
             ctx = self.ctx
             terms = []
             if kind == "FocusedSeq":
                 child = obj
             elif kind == "Sequence":
-                terms.append(ctx.eq(obj[0], x))
-                child = obj[1]
+                terms.append(ctx.eq(obj[1 if cf else 0], x))
+                child = obj[0 if cf else 1]
             else:
                 terms.append(ctx.eq(obj["x"], x))
                 child = obj["child"]
@@ -277,16 +312,41 @@ def harness(ctx, C, p):
         return _flags(ctx, C, p)
     if p.get("kind") == "union":
         return _union(ctx, C, p)
+    if p.get("kind") == "lazyflags":
+        d = mk(C, "LazyStruct('v'/VarInt, 'fp'/If(this._parsing, Byte), 'fs'/If(this._sizing, Int16ub), 'n'/Struct('q'/If(this._._parsing, Byte), 'w'/If(this._sizing, Int16ub)), 't'/Byte)")
+        data = ctx.bytes("data", 6)
+        ctx.assume(data[0] < 128)
+        r = api.outcome(d.parse, data)
+        ctx.check("parse succeeds", r.ok)
+        v = r.value
+        ctx.check("after a member that had to be parsed because it cannot be sized, the mode flags still say 'parsing' (here and in nested scopes)",
+                  api.and_terms([ctx.eq(v["fp"], data[1]), v["fs"] is None, ctx.eq(v["n"]["q"], data[2]), v["n"]["w"] is None, ctx.eq(v["t"], data[3])]))
+        return "ok"
+    if p.get("kind") == "indexfixed":
+        src_ = p["outer"].format("FixedSized(this._index + 2, %s)" % p["inner"])
+        d = mk(C, src_)
+        vals = [[ctx.int("e%d_%d" % (i, j), 0, 255) for j in range(2)] for i in range(2)]
+        rb = api.outcome(d.build, vals)
+        ctx.check("build accepts (the length expression resolves to the OUTER repetition index while building)", rb.ok)
+        ctx.check("layout: element i occupies i + 2 bytes", len(rb.value) == 2 + 3)
+        rp = api.outcome(d.parse, rb.value)
+        ctx.check("parse of the built bytes succeeds", rp.ok)
+        got = [list(x) for x in rp.value]
+        want = [vals[0], vals[1] + ([0] if "GreedyRange" in p["inner"] else [])]
+        ctx.check("parse uses the same lengths as build", ctx.eq(got, want))
+        return "ok"
     if p.get("kind") == "union-build":
         return _union_build(ctx, C, p)
     chain, ref, probe = [tuple(c) for c in p["chain"]], p["ref"], p["probe"]
-    source = level_source(0, chain, ref, probe)
+    usekw = needs_kw(chain, ref)
+    source = level_source(0, chain, ref, probe, usekw)
     d = mk(C, source)
-    kw = dict(k=ctx.int("kw.k", 0, 255), x=ctx.int("kw.x", 0, 255))
-    for i, (kind, w) in enumerate(chain):
-        if kind == "FocusedSeq":
+    kw = dict(k=ctx.int("kw.k", 0, 255), x=ctx.int("kw.x", 0, 255)) if usekw else {}
+    for i, c in enumerate(chain):
+        if c[0] == "FocusedSeq":
             kw["fx%d" % i] = ctx.int("kw.fx%d" % i, 0, 255)
-    g = Gen(ctx, chain, ref, probe, kw)
+    g = Gen(ctx, chain, ref, probe, kw if usekw else dict(k=7))
+    g.callkw = kw
     reps = 2 if chain[0][1] else 1
     vals, total, chks = [], 0, []
     for j in range(reps):
@@ -295,6 +355,7 @@ def harness(ctx, C, p):
         total += ln
         chks.append(ck)
     value = vals if chain[0][1] else vals[0]
+    ctx.observe("keyword arguments", sorted(kw))
     rb = api.outcome(d.build, value, **kw)
     ctx.check("build accepts the value (every reference resolves while building)", rb.ok)
     data = rb.value
